@@ -2,6 +2,9 @@ package props
 
 import (
 	"fmt"
+	"go/ast"
+	"go/token"
+	"go/types"
 	"regexp"
 	"strings"
 
@@ -24,6 +27,7 @@ var (
 
 func runC18(c *an.Ctx) string {
 	r181MergeErrors(c)
+	r181HistoryEntries(c)
 	statusCodeTable(c, "R18.2")
 	grpcCodeTable(c, "R18.3")
 	errorFieldFidelity(c, "R18.4")
@@ -188,11 +192,11 @@ func r181MergeErrors(c *an.Ctx) {
 				}
 			}
 		}
-		// history
+		// history: order of the two operands on every path (what the entries are is decided structurally below)
 		if val, ok := lastStore(p, reStoreE("history")); !ok {
 			histProbs = append(histProbs, "no store to history on path ["+p.GuardString()+"]")
-		} else if !regexp.MustCompile(`^append\(\(\*pkg\.ServiceError\)\.History\(` + reE + `\), \(\*pkg\.ServiceError\)\.History\(` + reO + `\)\)$`).MatchString(val) {
-			histProbs = append(histProbs, "history = "+val+": expected append(err.History(), other.History()...)")
+		} else if !strings.HasPrefix(val, "append(") {
+			histProbs = append(histProbs, "history = "+val+": expected append(history of err, history of other...)")
 		}
 		// cause
 		eNil, eNilKnown := env["E.err==nil"]
@@ -574,4 +578,140 @@ func r185ErrInvalidResponse(c *an.Ctx) {
 			}
 			return fmt.Sprintf("temporary=%s timeout=%s fault=%s", get("Temporary"), get("Timeout"), get("Fault"))
 		}, "client classification of unexpected statuses (temporary: 503,409,429,504; timeout: 408,504; fault: 500,501,502)")
+}
+
+// r181HistoryEntries (part of R18.1): the history lists the ORIGINAL errors. The history of an error that has not been
+// merged yet is that error, and MergeErrors goes on to rewrite the error it merges into (name, message, flags): an
+// entry that is the very pointer of that error shows the merged message under the name of the first original. So each
+// operand of the append that builds the new history is either the history field of the error (it was merged
+// before) or a fresh one-element slice holding the address of a copy `c := *x` taken before the first store into a
+// field of x - never the result of x.History(), which hands back x itself, for an x the function modifies.
+func r181HistoryEntries(c *an.Ctx) {
+	const rule = "R18.1"
+	f := c.MustFunc(rule, "pkg", "MergeErrors")
+	if f == nil {
+		return
+	}
+	info := f.Pkg.TypesInfo
+	// stores into fields, per base variable
+	firstStore := map[types.Object]token.Pos{}
+	var histStore *ast.AssignStmt
+	ast.Inspect(f.Decl.Body, func(n ast.Node) bool {
+		as, ok := n.(*ast.AssignStmt)
+		if !ok {
+			return true
+		}
+		for _, l := range as.Lhs {
+			se, ok := an.Unparen(l).(*ast.SelectorExpr)
+			if !ok || an.FieldOf(info, se) == nil {
+				continue
+			}
+			id, ok := an.Unparen(se.X).(*ast.Ident)
+			if !ok {
+				continue
+			}
+			o := an.ObjOf(info, id)
+			if an.CanonFieldName(an.FieldOf(info, se)) == "history" {
+				histStore = as
+				continue
+			}
+			if p, seen := firstStore[o]; !seen || as.Pos() < p {
+				firstStore[o] = as.Pos()
+			}
+		}
+		return true
+	})
+	if histStore == nil || len(histStore.Rhs) != 1 {
+		c.Add(an.Obligation{Rule: rule, Construct: f.Name + "#history-entries", Status: an.LOST, Nontrivial: true, Detail: "no store to the history field found"})
+		return
+	}
+	app, ok := an.Unparen(histStore.Rhs[0]).(*ast.CallExpr)
+	if !ok || len(app.Args) < 2 {
+		c.Undecidedf(rule, f.Name+"#history-entries", histStore.Pos(), "the history is not built with append(a, b...)")
+		return
+	}
+	var probs []string
+	classify := func(e ast.Expr) {
+		e = an.Unparen(e)
+		// every definition of a local operand
+		var defs []ast.Expr
+		if id, isId := e.(*ast.Ident); isId {
+			o := an.ObjOf(info, id)
+			ast.Inspect(f.Decl.Body, func(n ast.Node) bool {
+				as, ok := n.(*ast.AssignStmt)
+				if !ok {
+					return true
+				}
+				for i, l := range as.Lhs {
+					if an.ObjOf(info, l) == o {
+						if len(as.Rhs) == len(as.Lhs) {
+							defs = append(defs, as.Rhs[i])
+						} else if len(as.Rhs) == 1 {
+							defs = append(defs, as.Rhs[0])
+						}
+					}
+				}
+				return true
+			})
+		} else {
+			defs = []ast.Expr{e}
+		}
+		if len(defs) == 0 {
+			probs = append(probs, "operand "+types.ExprString(e)+" of the history append has no definition in the function")
+		}
+		for _, d := range defs {
+			d = an.Unparen(d)
+			switch x := d.(type) {
+			case *ast.SelectorExpr:
+				if fv := an.FieldOf(info, x); fv != nil && an.CanonFieldName(fv) == "history" {
+					continue // the history of an error that was merged before: copies already
+				}
+				probs = append(probs, "operand "+types.ExprString(d)+" is not a history")
+			case *ast.CallExpr:
+				if se, ok := an.Unparen(x.Fun).(*ast.SelectorExpr); ok && se.Sel.Name == "History" {
+					if id, ok := an.Unparen(se.X).(*ast.Ident); ok {
+						if _, modified := firstStore[an.ObjOf(info, id)]; modified {
+							probs = append(probs, fmt.Sprintf("the history is built from %s.History(), which returns %s itself when %s was never merged, and %s is then rewritten in place (name, message, flags): that entry shows the merged error, not the original", id.Name, id.Name, id.Name, id.Name))
+							continue
+						}
+					}
+					continue
+				}
+				probs = append(probs, "operand "+types.ExprString(d)+" is not a history")
+			case *ast.CompositeLit:
+				// []*ServiceError{&c} with c := *x taken before x is modified
+				okLit := len(x.Elts) == 1
+				if okLit {
+					u, isAddr := an.Unparen(x.Elts[0]).(*ast.UnaryExpr)
+					okLit = isAddr && u.Op == token.AND
+					if okLit {
+						cid, isId := an.Unparen(u.X).(*ast.Ident)
+						okLit = isId
+						if isId {
+							src := an.Unparen(an.ResolveLocalOnce(info, f.Decl.Body, cid))
+							st, isStar := src.(*ast.StarExpr)
+							okLit = isStar
+							if isStar {
+								if xid, ok := an.Unparen(st.X).(*ast.Ident); ok {
+									if p, modified := firstStore[an.ObjOf(info, xid)]; modified && p < x.Pos() {
+										probs = append(probs, fmt.Sprintf("the copy of %s that goes into the history is taken after %s was already modified", xid.Name, xid.Name))
+									}
+								} else {
+									okLit = false
+								}
+							}
+						}
+					}
+				}
+				if !okLit {
+					probs = append(probs, "operand "+types.ExprString(d)+" is not a one-element slice holding the address of a copy")
+				}
+			default:
+				probs = append(probs, "operand "+types.ExprString(d)+" is not a history")
+			}
+		}
+	}
+	classify(app.Args[0])
+	classify(app.Args[1])
+	c.Check(len(probs) == 0, rule, f.Name+"#history-entries", histStore.Pos(), "each history operand is a history field or a copy of the unmerged error taken before it is modified", strings.Join(dedupStrings(probs), " | "))
 }
